@@ -313,8 +313,9 @@ Definition key_eqb (a b : key) : bool :=
   end.
 Definition key_mem (k : key) (l : list key) : bool := existsb (key_eqb k) l.
 
-(* leaves: LNum = int/float/bool, LNone = None, LStr = str, LOther = any other object (shown through its repr) *)
-Inductive lkind := LNum | LNone | LStr | LOther.
+(* leaves: LNum = int/float/bool, LNone = None, LStr = str, LOther = any other object (shown through its repr),
+   LClass = a class (title 'type', css class '<name>-class') *)
+Inductive lkind := LNum | LNone | LStr | LOther | LClass.
 Definition is_str (lk : lkind) : bool := match lk with LStr => true | _ => false end.
 
 (* tname = type(value).__name__, cname = camel_to_snake(tname, '-'), raw = the string itself (LStr),
@@ -339,7 +340,15 @@ Record opts := mkOpts {
   o_uncollapse : list (list key);   (* uncollapse= (a list of key paths) *)
   o_css : list str;                 (* css_classes= (trusted class names, root element only) *)
   o_summary_color : option str * option str;   (* summary_color= (color, background-color): the root's summary name only *)
-  o_key_color : option str * option str        (* key_color= : every label-style key *)
+  o_key_color : option str * option str;       (* key_color= : every label-style key *)
+  (* callable options, as the table of their results on the nodes of the value (any table at all for the theorems): *)
+  o_highlight : list (list key);               (* highlight= : the child paths on which it returns true *)
+  o_lowlight : list (list key);                (* lowlight= *)
+  o_key_style_fn : option (list (list key));   (* key_style= callable: the child paths for which it returns 'label' (others: 'summary') *)
+  o_incl_fn : option (list (list key));        (* include_keys= callable: the child paths it accepts (every level) *)
+  o_excl_fn : option (list (list key));        (* exclude_keys= callable: the child paths it rejects (every level) *)
+  o_uncollapse_fn : option (list (list key));  (* uncollapse= callable: the paths on which it returns true *)
+  o_key_color_fn : option (list (list key * (option str * option str)))   (* key_color= callable *)
 }.
 
 (* constants of the view *)
@@ -364,6 +373,8 @@ Definition s_str := Eval compute in str_of "str".
 Definition s_int := Eval compute in str_of "int".
 Definition s_dots := Eval compute in str_of "(...)".
 Definition s_style := Eval compute in str_of "style".
+Definition s_highlight := Eval compute in str_of "highlight".
+Definition s_lowlight := Eval compute in str_of "lowlight".
 Definition s_color := Eval compute in str_of "color:".
 Definition s_bgcolor := Eval compute in str_of "background-color:".
 
@@ -436,6 +447,16 @@ Fixpoint is_prefix (p l : list key) : bool :=
 Fixpoint assoc_key {A} (k : key) (l : list (key * A)) : option A :=
   match l with [] => None | (k', a) :: r => if key_eqb k k' then Some a else assoc_key k r end.
 
+Fixpoint path_eqb (a b : list key) : bool :=
+  match a, b with
+  | [], [] => true
+  | x :: a', y :: b' => key_eqb x y && path_eqb a' b'
+  | _, _ => false
+  end.
+Definition path_mem (p : list key) (l : list (list key)) : bool := existsb (path_eqb p) l.
+Fixpoint assoc_path {A} (p : list key) (l : list (list key * A)) : option A :=
+  match l with [] => None | (p', a) :: r => if path_eqb p p' then Some a else assoc_path p r end.
+
 (* complex_value: the keys to show, in order: include_keys (those present, in the order given, duplicates kept) or all keys,
    minus exclude_keys *)
 Definition ordered_keys (incl excl : option (list key)) (present : list key) : list key :=
@@ -444,11 +465,11 @@ Definition ordered_keys (incl excl : option (list key)) (present : list key) : l
 
 Definition cname_of (v : pv) : str := match v with PLeaf _ _ c _ _ _ => c | PNode _ _ c _ _ => c end.
 Definition fmt_of (v : pv) : str := match v with PLeaf _ _ _ _ _ f => f | PNode _ _ _ f _ => f end.
-Definition is_simple (v : pv) : bool := match v with PLeaf LOther _ _ _ _ _ => false | PLeaf _ _ _ _ _ _ => true | PNode _ _ _ _ _ => false end.
+Definition is_simple (v : pv) : bool := match v with PLeaf LOther _ _ _ _ _ | PLeaf LClass _ _ _ _ _ => false | PLeaf _ _ _ _ _ _ => true | PNode _ _ _ _ _ => false end.
 (* make_title *)
 Definition title_of (v : pv) : str :=
   match v with
-  | PLeaf LNum t _ _ _ _ | PLeaf LStr t _ _ _ _ => t
+  | PLeaf LNum t _ _ _ _ | PLeaf LStr t _ _ _ _ | PLeaf LClass t _ _ _ _ => t
   | PLeaf _ t _ _ _ _ => t ++ s_dots
   | PNode _ t _ _ _ => t ++ s_dots
   end.
@@ -469,7 +490,7 @@ Section TreeView.
                | None => match lk with
                          | LNum | LNone => false
                          | LStr => negb (Z.of_nat (List.length raw) <=? o_max_len o)%Z
-                         | LOther => true
+                         | LOther | LClass => true
                          end
                end
       | PNode _ _ _ _ _ => true
@@ -482,12 +503,47 @@ Section TreeView.
     | None => false
     | Some n =>
         if (0 <? n)%Z then false
-        else if existsb (is_prefix path) (o_uncollapse o) then false
-        else match name with
-             | Some _ => negb (is_simple v)
-             | None => true
+        else match o_uncollapse_fn o with
+             | Some ps => negb (path_mem path ps)
+             | None =>
+                 if existsb (is_prefix path) (o_uncollapse o) then false
+                 else match name with
+                      | Some _ => negb (is_simple v)
+                      | None => true
+                      end
              end
     end.
+
+  (* the keys complex_value shows under the node at [path]: a callable include/exclude is asked at every level, a list only
+     filters the children of the rendered value ([incl]/[excl] are None below it) *)
+  Definition order_at (path : list key) (incl excl : option (list key)) (present : list key) : list key :=
+    let order0 := match o_incl_fn o with
+                  | Some ps => filter (fun k => path_mem (path ++ [k]) ps) present
+                  | None => match incl with None => present | Some l => filter (fun k => key_mem k present) l end
+                  end in
+    match o_excl_fn o with
+    | Some ps => filter (fun k => negb (path_mem (path ++ [k]) ps)) order0
+    | None => match excl with None => order0 | Some l => filter (fun k => negb (key_mem k l)) order0 end
+    end.
+  Definition key_included_at (path : list key) (incl excl : option (list key)) (k : key) : bool :=
+    (match o_incl_fn o with
+     | Some ps => path_mem (path ++ [k]) ps
+     | None => match incl with None => true | Some l => key_mem k l end
+     end)
+    && (match o_excl_fn o with
+        | Some ps => negb (path_mem (path ++ [k]) ps)
+        | None => match excl with None => true | Some l => negb (key_mem k l) end
+        end).
+  (* label-style key? (every index of a list / tuple; else key_style, possibly a callable) *)
+  Definition is_label_at (is_seq : bool) (path : list key) (k : key) : bool :=
+    is_seq || match o_key_style_fn o with Some ps => path_mem (path ++ [k]) ps | None => o_label_keys o end.
+  (* render_child_value: highlight / lowlight wrap the child *)
+  Definition hl_wrap (cpath : list key) (h : hnode) : hnode :=
+    let hi := path_mem cpath (o_highlight o) in
+    let lo := path_mem cpath (o_lowlight o) in
+    if hi || lo
+    then El s_div [] (class_attr ((if hi then [s_highlight] else []) ++ (if lo then [s_lowlight] else []))) [h]
+    else h.
 
   (* HtmlTreeView.summary *)
   Definition summary_el (css : list str) (scolor : option str * option str) (name : option key) (path : list key) (v : pv) : hnode :=
@@ -502,7 +558,11 @@ Section TreeView.
 
   (* HtmlTreeView.object_key (+ its tooltip) *)
   Definition key_cell (k : key) (cpath : list key) : list hnode :=
-    El s_span [] (class_attr [s_object_key; key_type k] ++ style_attr (o_key_color o)) [Txt (key_label k)]
+    El s_span [] (class_attr [s_object_key; key_type k]
+                  ++ style_attr (match o_key_color_fn o with
+                                 | Some tbl => match assoc_path cpath tbl with Some c => c | None => (None, None) end
+                                 | None => o_key_color o
+                                 end)) [Txt (key_label k)]
     :: (if o_key_tooltip o then [tooltip_span [] (path_str cpath)] else []).
 
   (* simple_value's value_repr: a string shorter than max_summary_len_for_str is shown through repr, a longer one as it is *)
@@ -520,20 +580,24 @@ Section TreeView.
              [Txt (leaf_text lk raw rep)]
       | PNode is_seq _ cname _ items =>
           let cl' := option_map (fun n => (n - 1)%Z) cl in
-          let label := is_seq || o_label_keys o in
           let rendered :=
             map (fun kc : key * pv =>
                    let cpath := path ++ [fst kc] in
                    (fst kc,
-                    if label
-                    then El s_tr [] [] [El s_td [] [] (key_cell (fst kc) cpath); El s_td [] [] [tv [] (None, None) None cpath cl' None None (snd kc)]]
-                    else tv [] (None, None) (Some (fst kc)) cpath cl' None None (snd kc))) items in
-          let order := ordered_keys incl excl (map fst items) in
-          let kids := flat_map (fun k => match assoc_key k rendered with Some h => [h] | None => [] end) order in
+                    if is_label_at is_seq path (fst kc)
+                    then El s_tr [] [] [El s_td [] [] (key_cell (fst kc) cpath);
+                                        El s_td [] [] [hl_wrap cpath (tv [] (None, None) None cpath cl' None None (snd kc))]]
+                    else hl_wrap cpath (tv [] (None, None) (Some (fst kc)) cpath cl' None None (snd kc)))) items in
+          let order := order_at path incl excl (map fst items) in
+          let pick := flat_map (fun k => match assoc_key k rendered with Some h => [h] | None => [] end) in
+          (* summary-style children first, then one table with the label-style children *)
+          let skids := pick (filter (fun k => negb (is_label_at is_seq path k)) order) in
+          let lkids := pick (filter (is_label_at is_seq path) order) in
+          let kids := skids ++ (match lkids with [] => [] | _ => [El s_table [] [] lkids] end) in
           El s_div [] (class_attr ([s_complex_value; cname] ++ ccss))
              (match kids with
               | [] => [El s_span [] (class_attr [s_empty_container]) []]
-              | _ => if label then [El s_table [] [] kids] else kids
+              | _ => kids
               end)
       end in
     if needs_summary name v
@@ -545,9 +609,16 @@ Section TreeView.
 
   (* which keys the options ask to show, and as what text: label-style keys (and all indices of a list / tuple) through
      object_key, summary-style keys as the summary name of the child -- when the child has a summary at all *)
-  Definition key_shown_text (is_seq : bool) (k : key) (c : pv) : option str :=
-    if is_seq || o_label_keys o then Some (key_label k)
+  Definition key_shown_text (is_seq : bool) (path : list key) (k : key) (c : pv) : option str :=
+    if is_label_at is_seq path k then Some (key_label k)
     else if needs_summary (Some k) c then Some (name_text k) else None.
+
+  (* every key of the path passes the filters that apply where it is rendered *)
+  Fixpoint path_shown (path : list key) (incl excl : option (list key)) (p : list key) : bool :=
+    match p with
+    | [] => true
+    | k :: r => key_included_at path incl excl k && path_shown (path ++ [k]) None None r
+    end.
 End TreeView.
 
 (* the sub-value reached by following the keys of a path (a dict lookup at every level) *)
@@ -555,11 +626,7 @@ Inductive sub_at : pv -> list key -> pv -> Prop :=
 | sub_here : forall v, sub_at v [] v
 | sub_item : forall sq tn cn fmt items k c p w,
     assoc_key k items = Some c -> sub_at c p w -> sub_at (PNode sq tn cn fmt items) (k :: p) w.
-(* include_keys / exclude_keys apply to the immediate children of the rendered value *)
-Definition key_included (incl excl : option (list key)) (k : key) : bool :=
-  (match incl with None => true | Some l => key_mem k l end) && (match excl with None => true | Some l => negb (key_mem k l) end).
-Definition path_included (o : opts) (p : list key) : bool :=
-  match p with [] => true | k :: _ => key_included (o_include o) (o_exclude o) k end.
+Definition path_included (o : opts) (p : list key) : bool := path_shown o (o_root_path o) (o_include o) (o_exclude o) p.
 
 (* ---------------------------------------------------------------------------------------------- *)
 (* 6. wire format
@@ -570,7 +637,7 @@ Definition path_included (o : opts) (p : list key) : bool :=
    key  ::= (0 z) | (1 str)
    pv   ::= (0 lkind tname cname raw rep fmt) | (1 is_seq tname cname fmt ((key pv) ...))
    opts ::= (name? root_path enable_summary? for_str max_len summary_tooltip key_tooltip label_keys include? exclude? collapse? uncollapse
-            css (color? bg?) (color? bg?))
+            css (color? bg?) (color? bg?) (path ...) (path ...) (path ...)? (path ...)? (path ...)? (path ...)? ((path (color? bg?)) ...)?)
    tree ::= (0 tag (opt ...) ((name value) ...) (tree ...)) | (1 text) | (2 raw) | (3 tag body)                                        *)
 Definition d_key (t : tr) : option key :=
   match t with
@@ -580,7 +647,7 @@ Definition d_key (t : tr) : option key :=
   end.
 Definition d_lkind (t : tr) : option lkind :=
   match t with
-  | I 0%Z => Some LNum | I 1%Z => Some LNone | I 2%Z => Some LStr | I 3%Z => Some LOther
+  | I 0%Z => Some LNum | I 1%Z => Some LNone | I 2%Z => Some LStr | I 3%Z => Some LOther | I 4%Z => Some LClass
   | _ => None
   end.
 Fixpoint d_pv (fuel : nat) (t : tr) : option pv :=
@@ -603,12 +670,15 @@ Fixpoint d_pv (fuel : nat) (t : tr) : option pv :=
   end.
 Definition d_opts (t : tr) : option opts :=
   match t with
-  | L [nm; rp; es; fs; ml; st; kt; lb; inc; exc; cl; unc; css; sc; kc] =>
+  | L [nm; rp; es; fs; ml; st; kt; lb; inc; exc; cl; unc; css; sc; kc; hi; lo; ksf; incf; excf; uncf; kcf] =>
       do nm' <- dopt d_key nm; do rp' <- dlist d_key rp; do es' <- dopt dbool es; do fs' <- dbool fs; do ml' <- dZ ml;
       do st' <- dbool st; do kt' <- dbool kt; do lb' <- dbool lb;
       do inc' <- dopt (dlist d_key) inc; do exc' <- dopt (dlist d_key) exc; do cl' <- dopt dZ cl; do unc' <- dlist (dlist d_key) unc;
       do css' <- dlist dstr css; do sc' <- dpair (dopt dstr) (dopt dstr) sc; do kc' <- dpair (dopt dstr) (dopt dstr) kc;
-      Some (mkOpts nm' rp' es' fs' ml' st' kt' lb' inc' exc' cl' unc' css' sc' kc')
+      let dpaths := dlist (dlist d_key) in
+      do hi' <- dpaths hi; do lo' <- dpaths lo; do ksf' <- dopt dpaths ksf; do incf' <- dopt dpaths incf; do excf' <- dopt dpaths excf;
+      do uncf' <- dopt dpaths uncf; do kcf' <- dopt (dlist (dpair (dlist d_key) (dpair (dopt dstr) (dopt dstr)))) kcf;
+      Some (mkOpts nm' rp' es' fs' ml' st' kt' lb' inc' exc' cl' unc' css' sc' kc' hi' lo' ksf' incf' excf' uncf' kcf')
   | _ => None
   end.
 
